@@ -25,6 +25,7 @@
 #include <rime/dict/dict_compiler.h>
 #include <rime/lever/deployment_tasks.h>
 #include <rime/lever/user_dict_manager.h>
+#include <rime/verif_deploy_hooks.h>
 #ifdef _WIN32
 #include <windows.h>
 #endif
@@ -247,9 +248,11 @@ bool WorkspaceUpdate::Run(Deployer* deployer) {
   LOG(INFO) << "finished updating schemas: " << success << " success, "
             << failure << " failure.";
 
+  RIME_VERIF_CRASHPOINT("WorkspaceUpdate::Run:schemas-updated");
   the<Config> user_config(Config::Require("user_config")->Create("user"));
   // TODO: store as 64-bit number to avoid the year 2038 problem
   user_config->SetInt("var/last_build_time", (int)time(NULL));
+  RIME_VERIF_CRASHPOINT("WorkspaceUpdate::Run:last-build-time-set");
 
   return failure == 0;
 }
@@ -377,6 +380,7 @@ bool SchemaUpdate::Run(Deployer* deployer) {
     return false;
   }
   LOG(INFO) << "dictionary '" << dict_name << "' is ready.";
+  RIME_VERIF_CRASHPOINT("SchemaUpdate::Run:dictionary-ready");
   return true;
 }
 
@@ -442,11 +446,14 @@ bool ConfigFileUpdate::Run(Deployer* deployer) {
   }
   // build the config file if needs update
   the<Config> config(Config::Require("config")->Create(file_name_));
+  RIME_VERIF_DEPLOG("config-check " + file_name_);
   if (ConfigNeedsUpdate(config.get())) {
+    RIME_VERIF_DEPLOG("config-rebuild " + file_name_);
     if (!MaybeCreateDirectory(deployer->staging_dir)) {
       return false;
     }
     config.reset(Config::Require("config_builder")->Create(file_name_));
+    RIME_VERIF_CRASHPOINT("ConfigFileUpdate::Run:rebuilt");
   }
   return true;
 }
